@@ -255,6 +255,7 @@ typedef struct {
 typedef struct {
 	uint8_t kind[C06_MAX_CH];	/* 0 unused, 1 read on socketpair, 2 write on socketpair, 3 timer, 4 write on the write end of a pipe (peer = read end) */
 	uint16_t period_ms[C06_MAX_CH];	/* timers */
+	uint8_t on_pvt;			/* registrations are made on the pool's virtual thread (served by the pool's only worker) */
 	uint8_t timer_ident_of[C06_MAX_CH];	/* timers: 0 = the identifier is an address of the harness; k+1 = the identifier equals the descriptor NUMBER
 					 * of channel k (timer identifiers are user-chosen numbers, e.g. a per-connection timer named after its socket) */
 	uint8_t ncmds;
@@ -433,7 +434,7 @@ uint8_t c16f_file_pattern(uint64_t pos);
 
 /* phase scripts on one receive task: silent partial progress, restart with a new window, pause on a timeout / data report, re-enable */
 #define C16S_MAX_STEPS 12
-#define C16S_LOG 160
+#define C16S_LOG 1024
 enum { S_WRITE = 1 /* a bytes from the peer */, S_WAIT_TIMEOUT, S_RESTART /* owner: tp_task_stop + new window (a = offset, b = length) + tp_task_start */, S_ENABLE /* owner: tp_task_enable(1) if paused */, S_SLEEP /* a ms */,
 	S_STOP_RESTART /* owner: tp_task_stop + tp_task_restart(): same buffer, the unreported count is kept */ };
 typedef struct { uint8_t op; uint16_t a, b; } c16s_step;
@@ -442,6 +443,8 @@ typedef struct {
 	uint8_t after_every_read;
 	uint8_t on_timeout;	/* answer to ETIMEDOUT: 0 CONTINUE, 1 NONE (the task stays paused until tp_task_enable(1) / a restart) */
 	uint8_t pause_data_k;	/* dispatch only: the k-th data report is answered with NONE (0 never) */
+	uint8_t final_reset;	/* 0: the stream goes on at the end (the next full window must be reported); n = 1..3: the peer sends n more bytes and closes
+				 * while it has unread input of its own - the connection is reset with payload still queued (ECONNRESET must be reported once) */
 	uint8_t setup_mode;	/* 0: tp_task_create() gets everything; 1: created as a bare notify task without descriptor / flags / user pointer and
 				 * configured through the accessors (tp_task_ident_set, tp_task_tp_cb_func_set, tp_task_flags_add, tp_task_udata_set) before the start */
 	uint16_t timeout_ms, buf_size, win_off, win_len;
